@@ -41,6 +41,9 @@ ALIASES = [
     ("C18.R8", c04.r4, "a forced include that cannot be found is reported once, naming the requested and the compiled file (= C04.R4)"),
     ("C11.R9", c04.r4, "the extracted -I / -D / -include lists reach the platform complete and in order (= C04.R4)"),
     ("C08.R7", c13.r7, "every compile command listed in the database reaches the analysis: entries are neither merged nor de-duplicated (= C13.R7)"),
+    ("C04.R10", c13.r2, "the include directories of an entry reach the platform in command-line order, resolved against the entry's directory (= C13.R2)"),
+    ("C11.R10", c13.r2, "the extracted lists of an entry are not reordered or modified after extraction (= C13.R2)"),
+    ("C06.R10", c13.r2, "what is analysed does not depend on the logging level: the entry lists are not touched by the debug dump (= C13.R2)"),
     ("C05.R5", c17.r3, "a file is scanned with the line source of its (inherited) language (= C17.R3)"),
 ]
 
